@@ -585,7 +585,9 @@ def _import_time_unsupported(body):
     """A definition with an unsupported hint that is executed (hence decorated) while the module is imported: at module
     level, inside module-level control flow, or in the body of a class defined there (methods are decorated with the class)."""
     for s in body:
-        if s['k'] == 'def' and s['annotated'] and s['hint'] in BAD_HINT_SRC:
+        # (a functools.wraps wrapper written by the user hides the definition: beartype then decorates a (*a, **k) callable
+        # whose copied annotations name no parameter, and has nothing to warn about)
+        if s['k'] == 'def' and s['annotated'] and s['hint'] in BAD_HINT_SRC and 'wrapping' not in s['decos']:
             return True
         if s['k'] == 'class' and _import_time_unsupported(s['body']):
             return True
